@@ -6,7 +6,7 @@ claim("C01", "lockset + value-provenance (SSA access paths) + channel typestate"
       "enqueued ID and the newID() result are one SSA value; the response copied to a client is the one received on that "
       "activation's own unbuffered channel (single receive site, not in a loop); the agent-facing endpoints use the request ID "
       "of their own call; (backend ID, request ID) travel in the right parameter roles from the pending list to the upload "
-      "headers. no per-request closure, goroutine-in-loop or pool shares scratch memory or loop variables between activations; the App Engine proxy's GET response cache uses one injective key of (user, URL). session numbers are never given back; App Engine blob parts keep their order. Not decided: interleavings inside net/http, ID collision probability, payload bytes.")
+      "headers. no per-request closure, goroutine-in-loop or pool shares scratch memory or loop variables between activations; the App Engine proxy's GET response cache uses one injective key of (user, URL). session numbers are never given back; App Engine blob parts keep their order; the stand-alone proxy forces chunked framing so one request's response cannot be cut short into the next. Not decided: interleavings inside net/http, ID collision probability, payload bytes.")
 
 claim("C02", "who-may-write table over resolved mutation sites + sibling tables + construction-site checks",
       "Byte identity through net/http is not decided. Decides that nothing in this repository's code on the request path alters "
@@ -14,7 +14,7 @@ claim("C02", "who-may-write table over resolved mutation sites + sibling tables 
       "*http.Request in the proxy's client path and the agent's handler chain is enumerated), that both hop-by-hop tables equal "
       "the RFC 7230 set, that the backend-facing proxy is httputil.NewSingleHostReverseProxy of a Scheme+Host URL without "
       "Director/Rewrite override, that the request object stored, serialised (Request.Write), parsed (private bufio.Reader) and "
-      "served is one chain of custody, that the fetched reply body stays open until the request was forwarded, that no pooled buffers carry request bytes, that no fetch helper defers the cancel of the context its returned response still needs, and that no ServeMux/StripPrefix/TimeoutHandler sits on the pass-through route.")
+      "served is one chain of custody, that the fetched reply body stays open until the request was forwarded, that no pooled buffers carry request bytes, that no fetch helper defers the cancel of the context its returned response still needs, that the agent never reads the body of the request it forwards, and that no ServeMux/StripPrefix/TimeoutHandler sits on the pass-through route.")
 
 claim("C03", "ownership-transfer rule + taint (tokeniser as sanitiser) + partial evaluation of status comparisons + dominance",
       "Byte identity through Response.Write/ReadResponse is not decided. Decides the repository-specific shapes the statement's "
@@ -38,13 +38,13 @@ claim("C05", "deny-list over the static call closure of the response path + stru
       "closure of the path's entry points; every Write forwards its own slice with one underlying Write outside loops; every "
       "upload-path Reader does one underlying Read per call outside loops; the serialiser does not wrap the body it writes; the "
       "two io.Pipes are wired as designed; chunked framing is forced; FlushInterval is negative or ≤ 1 s; the HTML splice does one "
-      "bounded Read; the response is published from WriteHeader.")
+      "bounded Read; the response is published from WriteHeader; the replay reader returns buffered bytes without first reading the source; no lock is held across a metrics RPC on the response path and the serialiser never blocks on metrics; a writer latches at most once.")
 
 claim("C06", "counted-loop evaluation + must-pass-through + truth tables by partial evaluation + lockset + pairing rules",
       "Decides for every fault sequence: at most three attempts (counted loop evaluated; the request is not replayable by net/http itself: no GetBody); every path from one client.Do to the "
       "next passes a rewind whose failure leaves the function; Seek refuses exactly when the retained prefix may be incomplete "
       "(writeHead vs len(buf), offset, whence evaluated on boundary values); the replay state is only touched under its mutex, "
-      "each attempt reads through the handle returned by its own rewind and a stale generation never reaches the source; the replay buffer retains exactly p[k:k+n] at writeHead (offset agreement on sample values); both "
+      "each attempt reads through the handle returned by its own rewind and a stale generation never reaches the source; one failed chain of attempts is not restarted by an outer loop; the replay buffer retains exactly p[k:k+n] at writeHead (offset agreement on sample values); both "
       "forwarder goroutines close their pipe end and error channel on every exit, CloseWithError propagates failures, Close() "
       "drains both channels. Not decided: attempt bytes for a given fault offset inside http.Transport.")
 
@@ -54,7 +54,7 @@ claim("C07", "VTA call-graph reachability + lockset + shared-state inventory + c
       "under its mutex (exclusive lock, RLock does not count for mutating accessors); every shared map / non-goroutine-safe object "
       "is guarded, per-request or read-only after construction; the dedup LRU is confined to the poller; no unchecked type "
       "assertion on per-request paths; possibly-nil messages are nil-checked across the shim channels; no close of a multi-sender "
-      "channel; published response maps are not aliased; JSON-decoded pointer elements are nil-tested; channels are closed only by their sole sender; default 502 error handler. Not decided: panics inside dependencies.")
+      "channel; published response maps are not aliased; JSON-decoded pointer elements are nil-tested; channels are closed only by their sole sender; one worker goroutine per fetched request, started without waiting for earlier ones; offsets found by searching one value only slice that value; default 502 error handler. Not decided: panics inside dependencies.")
 
 claim("C08", "interval abstract interpretation over SSA on a complete finite partition + loop-structure rule",
       "The delay function touches its argument through one comparison and one shift, so the 64-bit argument range splits into "
@@ -76,7 +76,7 @@ claim("C10", "lockset + must-pass-through under status valuation + literal-field
       "final status each path to wrapped.WriteHeader first deletes Set-Cookie from the forwarded header, the only Set-Cookie added "
       "is the session cookie literal on the no-session branch, Write cannot reach the wrapped writer before WriteHeader; 1xx does "
       "not latch; cookie literal attributes (HttpOnly, Path=/, Secure=!override, Expires=now+lifetime, name, fresh UUID); the "
-      "session cookie is dropped and other client cookies kept (equality truth table), jars and cookie URL are the caller's own; the shim's open endpoint restores r.URL before the session handler runs. "
+      "session cookie is dropped and other client cookies kept (equality truth table), jars and cookie URL are the caller's own; the shim's open endpoint restores r.URL before the session handler runs; the backend-facing client of a session carries that session's jar only. "
       "Not decided: cookiejar matching, LRU eviction, expiry arithmetic.")
 
 claim("C11", "sibling agreement by partial evaluation + channel inventory + provenance of message fields",
@@ -121,7 +121,7 @@ claim("C16", "pairing: copy-loop completion must reach a close of the pair; acqu
       "Timing is not decided. Decides the structural obstacle the property names: in each bridging function, when either "
       "direction's io.Copy returns that goroutine closes the connections of the pair (directly or via a closure that does), "
       "independently of its sibling — an expired deadline or a conditional close is not accepted — and every acquired connection "
-      "(Upgrade, Dial, Accept, DialWebsocket) has a deferred Close; no SO_LINGER≥0 is armed and no raw descriptor is taken from a bridge socket; an acquisition is followed by its deferred Close on every path; a wrapper's Close never takes a lock that is held across blocking I/O.")
+      "(Upgrade, Dial, Accept, DialWebsocket) has a deferred Close; no SO_LINGER≥0 is armed and no raw descriptor is taken from a bridge socket; an acquisition is followed by its deferred Close on every path; a wrapper's Close never takes a lock that is held across blocking I/O; every websocket dial of the bridge is bounded (DefaultDialer, positive HandshakeTimeout or deadline context).")
 
 claim("C17", "dominance + provenance (validated value) + sibling agreement of Store implementations + partial evaluation",
       "Identity values come from App Engine. Decides for all callers and orders: in each agent endpoint checkBackendID dominates "
@@ -134,13 +134,13 @@ claim("C17", "dominance + provenance (validated value) + sibling agreement of St
 claim("C18", "dominance (liveness gate) + truth tables by partial evaluation + purity/determinism of the selection function",
       "Full equivalence with a longest-prefix specification is not decided. Decides: every backend ID returned by the lookups "
       "passed hasBackend(<same ID>, 5 min); hasBackend is 'seen and Since < timeout' on boundary values; the shared lookup runs only "
-      "when the user has no match; failure is 404 before any store write; the selection function is pure and deterministic, updates "
+      "when the user has no match; the lookup is keyed by the decoded r.URL.Path; failure is 404 before any store write; a successful registerBackendAsSeen has written the tracker with time.Now(); the selection function is pure and deterministic, updates "
       "its best candidate only under HasPrefix(path, p) and only when there is none yet or len(p) > len(best), records ID and prefix "
       "of the same backend, and errors exactly when there is no match; neither loop is left early (every prefix of every backend is compared); no cache or memo sits in front of the routing decision.")
 
 claim("C19", "provenance of IDs and bytes + sibling key agreement + path-sensitive send counting vs. channel capacity + pairing",
       "Blob arithmetic at the 1 MB boundaries is not decided. Decides: the client path stores and awaits under the same (backend, "
-      "request ID) pair and parses the bytes it awaited; agent endpoints use the validated backend and the header's request ID; a "
+      "request ID) pair and parses the bytes it awaited; nothing parses the form or reads the body of the client request before it is serialised; agent endpoints use the validated backend and the header's request ID; a "
       "response is stored only when the request exists under that pair; datastore keys agree between write and read, blob parts are "
       "read with one ordered GetMulti in the recorded order without goroutines; Completed=true is set on the read request before it "
       "is written back and the pending query filters it; every error channel's capacity covers its possible senders, WaitGroup "
